@@ -118,6 +118,30 @@ type dirDef struct {
 var plainTypeNames = []string{"User", "Post", "Comment", "Item", "Order", "Thing", "Widget", "Gadget", "Node2", "Entry", "Group", "Label", "Shape", "Event", "Asset"}
 var hostileTypeNames = []string{"Type", "Func", "Map", "Error", "String_", "Int_", "URL", "HTTPServer", "ApiKey", "Id", "XMLHttpRequest", "My_Type", "_Leading", "Trailing_", "a_b_c", "lowercase", "T", "Interface_", "Chan", "Select", "Range", "Package_", "JSON", "Uuid", "IPAddress"}
 
+// FederationProbe: a small federation v2 subgraph with two entities that have @requires fields.
+const FederationProbe = `extend schema @link(url: "https://specs.apollo.dev/federation/v2.3", import: ["@key", "@external", "@requires"])
+
+type Query {
+  ping: String
+}
+
+type Planet @key(fields: "name") {
+  name: String!
+  diameter: Int @external
+  "needs the diameter"
+  size: Int @requires(fields: "diameter")
+  marker: String
+}
+
+type Moon @key(fields: "id") @key(fields: "planet { name } index") {
+  id: ID!
+  index: Int!
+  planet: Planet!
+  mass: Int @external
+  density: Int @requires(fields: "mass")
+}
+`
+
 // ExecFileTypeNames: exported identifiers of every generated exec file.
 var ExecFileTypeNames = []string{"Config", "ResolverRoot", "DirectiveRoot", "ComplexityRoot"}
 var plainFieldNames = []string{"id", "name", "title", "count", "items", "owner", "parent", "children", "value", "score", "active", "tags", "createdAt", "kind", "ref", "other", "next", "prev", "extra", "note"}
